@@ -22,7 +22,7 @@ BUILTIN_NONNULL = {
 BUILTIN_NULL = {"SOI", "EOI"}
 BUILTINS = BUILTIN_NONNULL | BUILTIN_NULL
 
-UNARY = ("grp", "opt", "star", "plus", "and", "not", "push")
+UNARY = ("grp", "bare", "opt", "star", "plus", "and", "not", "push")
 COUNTED = ("exact", "min", "max", "minmax")
 
 
@@ -64,7 +64,8 @@ def esc_char(c: str) -> str:
     return c
 
 
-ATOMS = {"str", "ci", "range", "ref", "grp", "push", "pushlit", "peek", "pop", "drop", "peekall", "popall", "slice"}
+# "bare" means the same as "grp" but is printed WITHOUT parentheses: ("plus", ("bare", ("exact", e, 2))) prints e{2}+ (a postfix chain)
+ATOMS = {"str", "ci", "range", "ref", "grp", "bare", "push", "pushlit", "peek", "pop", "drop", "peekall", "popall", "slice"}
 
 
 def _operand(e) -> str:
@@ -90,6 +91,8 @@ def to_pest(e) -> str:
         return " | ".join(("(" + to_pest(c) + ")") if c[0] == "alt" else to_pest(c) for c in e[1])
     if k == "grp":
         return "(" + to_pest(e[1]) + ")"
+    if k == "bare":
+        return to_pest(e[1])
     if k == "opt":
         return _operand(e[1]) + "?"
     if k == "star":
@@ -199,7 +202,7 @@ class Env:
             return all(self.nullable(c) for c in e[1])
         if k == "alt":
             return any(self.nullable(c) for c in e[1])
-        if k in ("grp", "plus", "push"):
+        if k in ("grp", "bare", "plus", "push"):
             return self.nullable(e[1])
         if k == "tag":
             return self.nullable(e[2])
